@@ -250,6 +250,13 @@ func CompareVersion(v1, v2 string) int {
 		return 1
 	}
 
+	// the nanosecond part is not zero padded: "5" is older than "10"
+	if len(parts1[1]) != len(parts2[1]) {
+		if len(parts1[1]) < len(parts2[1]) {
+			return -1
+		}
+		return 1
+	}
 	if parts1[1] < parts2[1] {
 		return -1
 	} else if parts1[1] > parts2[1] {
